@@ -423,7 +423,9 @@ Proof.
     apply Forall_app. split; [exact XA2|constructor; [exact P1|constructor]].
   - cbn [bind fst snd]. apply ADV; try (destruct w; reflexivity).
     split; [destruct w; exact (proj1 HX)|]. destruct w; cbn in *. split; [|split; assumption].
-    apply Forall_app. split; [exact HA|constructor; [|constructor]]. eapply whole_piece_ok; eauto.
+    apply Forall_app. split; [exact HA|constructor; [|constructor]].
+    assert (PW : PO w_st w_runs run) by (eapply whole_piece_ok; eauto).
+    unfold PO in *. rewrite <- PW. unfold piece_ok, recompute_advance, set_adv, out_end. reflexivity.
 Qed.
 
 Lemma pbo_safe : forall n w opt lc,
@@ -541,11 +543,32 @@ Qed.
 Definition safe_loop (n : Z) (s0 : list (list (Z * Z * Z * Z * Z))) (r : res (W * bool)) : Prop :=
   match r with Ok (w', _) => XI n w' /\ sk (w_st w') = s0 | OutOfFuel => True | _ => False end.
 
-Lemma inner_safe : forall n fuel w lc,
-  JT n w -> OrdI w -> 1 <= b_wpos (w_br w) <= n -> fst (b_unusedW (w_br w)) = b_wpos (w_br w) - 1 -> XI n w ->
-  safe_loop n (sk (w_st w)) (inner_loop fuel w lc).
+(* the end of the grapheme loop: the UAX #14 option processed again from the checkpoint *)
+Lemma fallback_safe : forall n w wopt lc, JP n w -> XI n w -> fst wopt < n ->
+  safe_loop n (sk (w_st w)) (word_fallback w wopt lc).
 Proof.
-  intros n. induction fuel as [|fuel IH]; intros w lc HT HO HW HU HX; cbn [inner_loop]; [exact I|].
+  intros n w wopt lc HP HX HWo. unfold word_fallback.
+  destruct (negb (lc_truncating lc) && negb (has_best w)) eqn:FB; [|cbn; split; [exact HX|reflexivity]].
+  apply andb_prop in FB. destruct FB as [_ FB2]. apply negb_true_iff in FB2.
+  pose proof (JT_restore n w HP) as TR. pose proof (XI_restore n w HX) as XR.
+  assert (Hnb : has_best (restore w) = false) by (rewrite (has_best_same w (restore w)); [exact FB2|destruct w; reflexivity]).
+  assert (Hord : s_alt (w_sc (restore w)) <> [] -> lend (w_start (restore w)) (s_alt (w_sc (restore w))) <= fst wopt).
+  { rewrite (JT_no_best_alt n _ TR Hnb). congruence. }
+  destruct (pbo_safe n (restore w) wopt lc (proj1 (proj1 TR)) XR HWo Hord) as (w3 & r & cand & PB & XC3 & Sk3 & Fin3).
+  rewrite PB. cbn [bind].
+  destruct (JP_pbo n (restore w) wopt lc w3 r cand (proj1 TR) HWo Hord PB) as (P3 & F3 & BE3 & LE3 & C3 & L3).
+  assert (Sr : sk (w_st (restore w)) = sk (w_st w)) by (destruct w; reflexivity). rewrite Sr in Sk3.
+  destruct r; cbv beta iota zeta;
+    try (destruct (C3 ltac:(discriminate)) as (C31 & C32 & C33); destruct (Fin3 ltac:(discriminate)) as [FP FC];
+         split; [eapply XI_mark_best1; eauto|rewrite <- Sk3; destruct w3; reflexivity]).
+  split; [apply XI_restore; exact XC3|rewrite <- Sk3; destruct w3; reflexivity].
+Qed.
+
+Lemma inner_safe : forall n fuel w wopt lc,
+  JT n w -> OrdI w -> 1 <= b_wpos (w_br w) <= n -> fst (b_unusedW (w_br w)) = b_wpos (w_br w) - 1 -> XI n w -> fst wopt < n ->
+  safe_loop n (sk (w_st w)) (inner_loop fuel w wopt lc).
+Proof.
+  intros n. induction fuel as [|fuel IH]; intros w wopt lc HT HO HW HU HX HWo; cbn [inner_loop]; [exact I|].
   destruct (JT_checkpoint n w HT) as (T1 & Csv & Calt & Cbe & Cbr & Cbest).
   pose proof (XI_checkpoint n w HX) as XC1.
   assert (St1 : w_st (checkpoint w) = w_st w) by (destruct w; reflexivity).
@@ -565,7 +588,8 @@ Proof.
   destruct (Bk_ug_n n _ Bb1) as (G1 & G2 & G3).
   set (b := w_br w) in *.
   destruct ro as [opt|].
-  2:{ cbv beta iota zeta. split; [exact XC2|rewrite St2; reflexivity]. }
+  2:{ cbv beta iota zeta. replace (sk (w_st w)) with (sk (w_st w2)) by (rewrite St2; reflexivity).
+      apply fallback_safe; [exact (proj1 T2)|exact XC2|exact HWo]. }
   destruct X as (X1 & X2 & X3 & X4 & X5 & X6 & X7 & X8).
   assert (X1' : fst opt = fst (b_unusedG b1)) by (rewrite X1; reflexivity).
   assert (Hord : s_alt (w_sc w2) <> [] -> lend (w_start w2) (s_alt (w_sc w2)) <= fst opt).
@@ -599,6 +623,7 @@ Proof.
     + rewrite R2, F3b, S1. exact HW.
     + rewrite R2, F3b, S1, S2. exact HU.
     + apply XI_restore; exact XC3.
+    + exact HWo.
   - (* EndLine *)
     cbv beta iota zeta. destruct (Best1 ltac:(discriminate)) as (B1x & _). split; [exact B1x|rewrite Stm; exact Sk3].
   - (* Truncated *)
@@ -619,6 +644,7 @@ Proof.
     + rewrite U2; cbn. rewrite S1; exact HW.
     + rewrite U2; cbn. rewrite S1, S2; exact HU.
     + apply XI_set_br. exact B1x.
+    + exact HWo.
   - (* CannotFit *)
     destruct (lc_truncating lc); cbv beta iota zeta; [split; [exact XC3|exact Sk3]|].
     destruct (Best1 ltac:(discriminate)) as (B1x & _). split; [apply XI_set_br; exact B1x|].
@@ -676,21 +702,25 @@ Proof.
   assert (G : forall wx, JP n wx -> s_save (w_sc wx) = s_alt (w_sc w) -> w_start wx = w_start w ->
               b_prevW (w_br wx) = b_prevW b1 -> b_wpos (w_br wx) = b_wpos b1 -> b_unusedW (w_br wx) = b_unusedW b1 ->
               XI n wx -> sk (w_st wx) = sk (w_st w) ->
-              safe_loop n (sk (w_st w)) (inner_loop (br_fuel wx) (restore wx) lc)).
+              safe_loop n (sk (w_st w)) (inner_loop (br_fuel wx) (restore wx) opt lc)).
   { intros wx Px Sx Stx Pwx Wx Ux Xx Skx. destruct (restore_proj wx) as (Rx1 & Rx2 & Rx3 & Rx4).
     replace (sk (w_st w)) with (sk (w_st (restore wx))) by (rewrite <- Skx; destruct wx; reflexivity).
-    apply inner_safe; [apply JT_restore; exact Px| | | |apply XI_restore; exact Xx].
+    apply inner_safe; [apply JT_restore; exact Px| | | |apply XI_restore; exact Xx|lia].
     - unfold OrdI. rewrite Rx1, Rx2, Rx3, Sx, Stx, Pwx. intros Hne. left. destruct (HO Hne) as [O1 O2]. fold b in O1, O2.
       destruct (b_isUnusedW b) eqn:FB; [cbn in O2; lia|]. rewrite (X9 eq_refl). exact O1.
     - rewrite Rx2, Wx. lia.
     - rewrite Rx2, Wx, Ux. lia. }
   destruct r.
-  - (* BreakInvalid *)
-    assert (Sr : sk (w_st (restore w3)) = sk (w_st w)) by (rewrite <- Sk3; destruct w3; reflexivity).
+  - (* BreakInvalid: the option is discarded *)
+    cbv zeta. rewrite R2, F3b.
+    destruct (set_br_proj (restore w3) (discard_word b1)) as (D1 & D2 & D3 & D4 & D5).
+    assert (Sr : sk (w_st (set_br (restore w3) (discard_word b1))) = sk (w_st w)) by (rewrite <- Sk3; destruct w3; reflexivity).
     rewrite <- Sr. apply IH.
-    + apply JT_restore; exact P3.
-    + unfold OrdO. rewrite R1, R2, R3, F3v, F3s, F3b, FW. intros Hne. destruct (HO Hne) as [O1 O2]. fold b in O1. split; [lia|reflexivity].
-    + apply XI_restore; exact XC3.
+    + apply JT_set_br; [apply JT_restore; exact P3|apply Bk_discard; assumption].
+    + unfold OrdO. rewrite D1, D2, D3, R1, R3, F3v, F3s. cbn [discard_word b_unusedW b_isUnusedW]. rewrite FW.
+      intros Hne. destruct (HO Hne) as [O1 O2]. fold b in O1, O2.
+      destruct (b_isUnusedW b) eqn:FB; [cbn in O2; lia|]. rewrite (X9 eq_refl). split; [exact O1|reflexivity].
+    + apply XI_set_br. apply XI_restore; exact XC3.
   - (* EndLine *)
     cbv beta iota zeta. destruct (Best1 ltac:(discriminate)) as (B1x & _). split; [exact B1x|rewrite Stm; exact Sk3].
   - (* Truncated *)
@@ -1029,7 +1059,9 @@ Proof.
     split; [apply sk_structure_kept; reflexivity|]. intros l [<-|[]].
     destruct (negb _); [|discriminate]. destruct (negb _); [|discriminate].
     destruct runs as [|r0 [|r1 rest]]; try discriminate. destruct (_ <=? _); [|discriminate]. inversion FP; subst.
-    apply forallb_text_exact. constructor; [|constructor]. left. eapply whole_piece_ok; [exact HW|left; reflexivity].
+    apply forallb_text_exact. constructor; [|constructor]. left.
+    assert (PW : PO (w_st w) [r0] r0) by (eapply whole_piece_ok; [exact HW|left; reflexivity]).
+    unfold PO in *. rewrite <- PW. unfold piece_ok, recompute_advance, set_adv, out_end. reflexivity.
   - pose proof (CI_prepare n w cfg attrs runs (wf_runs_ok _ _ _ HW) Hn H1) as HC.
     pose proof (XB_prepare n w cfg attrs runs HW) as HB.
     pose proof (paragraph_loop_safe n attrs (o_src (c_truncator cfg)) (para_fuel attrs) _ mw [] HC eq_refl HB eq_refl ltac:(constructor)) as X.
